@@ -54,6 +54,12 @@ static void ep_mul_fix_plain(ep_t r, const ep_t *t, const bn_t k) {
 	l = RLC_FP_BITS + 1;
 	bn_rec_naf(naf, &l, k, RLC_DEPTH);
 
+	if (l == 0) {
+		/* The scalar is a multiple of the order. */
+		ep_set_infty(r);
+		return;
+	}
+
 	n = naf[l - 1];
 	if (n > 0) {
 		ep_copy(r, t[n / 2]);
